@@ -247,6 +247,31 @@ theorem reads_as_finish (L : PdbLayout) (excl : List (List Char)) (ignh : Bool) 
   unfold pdbStep
   simp only [hne, if_false, hc]
 
+/-- A written line without '#' that starts with a six-column record name which the dispatcher maps to
+`_atom` is read as the atom that parsing the raw line yields: neither the comment stripping nor
+the stripping of the line changes any column. -/
+theorem reads_as_atom (L : PdbLayout) (excl : List (List Char)) (ignh : Bool) (q b X : List Char) (pa : PAtom)
+    (hlen : (q ++ b).length = 6) (hq : strip q = q) (hqL : stripL q = q) (hqne : q ≠ [])
+    (hb : b.all isWs = true) (hkind : classify q = .atom)
+    (hhash : (q ++ b ++ X).all (· ≠ '#') = true)
+    (hparse : parseAtomLine L excl ignh (q ++ b ++ X) = .ok (.keep pa)) :
+    ReadsAsAtom L excl ignh (q ++ b ++ X) pa := by
+  intro st
+  have hhash' : (q ++ b).all (· ≠ '#') = true := by
+    rw [List.all_append, Bool.and_eq_true] at hhash; exact hhash.1
+  obtain ⟨hne, hname⟩ := record_name q b X hlen hq hqL hqne hb hhash'
+  have hlq : q.length ≤ 6 := by simp at hlen; omega
+  have hc : classify (decomment (q ++ b ++ X)) = .atom := by
+    rw [← hkind]
+    unfold classify
+    rw [hname, List.take_of_length_le hlq, hq]
+  have hL : stripL (q ++ b ++ X) = q ++ b ++ X := by
+    rw [List.append_assoc]; exact stripL_append_of q _ hqL hqne
+  unfold pdbStep
+  simp only [hne, if_false, hc]
+  rw [parseAtomLine_decomment L excl ignh _ hhash hL, hparse]
+  rfl
+
 /-- **ter_split.** A file that consists, molecule after molecule, of lines the reader takes as
 atoms followed by a line it takes as end-of-molecule, and then the END line, is read back as
 exactly these molecules: same number, same atoms, same order.  (That the ATOM lines produced by
